@@ -1,9 +1,10 @@
 From Coq Require Import Extraction ExtrOcamlBasic.
-From PV Require Import Lib.ExtractBase Model.ConfigDecode Model.TagTables Model.HclLocals Model.ScenarioGuard Gen.ConfigSchemaGen Gen.ScenarioTagsGen.
+From PV Require Import Lib.ExtractBase Model.ConfigDecode Model.TagTables Model.HclLocals Model.ScenarioGuard Model.BlockScalar Gen.ConfigSchemaGen Gen.ScenarioTagsGen.
 Extraction Language OCaml.
 Extraction "extracted/C16_model.ml" xb_types decode_and_validate fuel_for model_factory_lazy
   marshal_by_tags marshal_val table_ok level_ok flat_fields
   h_goname h_yaml h_hcl h_hclkind h_optional h_omitempty h_kind
   parse_hcl spec_locals inline_body map_opt eval_closed parse_hcl_fields spec_fields
   decode_map read_yaml read_hcl scenario_weights with_ctor ctor_checks format_of read_file
+  read_block chomp_for heredoc_value
   gen_registry gen_hcl_root gen_ammo_schema gen_ammo_default.
